@@ -128,6 +128,16 @@ fn check_grid(ctx: &Ctx, civ: &Civil, point: i64, loc: &mut Local) {
     let r = guard(|| inst_of(civ, &JulianDay::from_julian_day(jd).get_solar_time()));
     let key = format!("{} {:+.1}s", fmt_inst(civ, point), k as f64 * 0.1);
     let rp = vec!["grid".to_string(), point.to_string()];
+    // the date of a fractional Julian date: the civil day that contains it, or the day of the second-rounded instant (the two
+    // readings differ only in the last half second of a day; the property does not choose between them)
+    let dr = guard(|| inst_of_day(civ, &JulianDay::from_julian_day(jd)));
+    let contain = (t / 86400.0).floor() as i64;
+    let rounded = ((t + 0.5).floor() as i64).div_euclid(86400);
+    match dr {
+      Ok(Some(o)) if o == contain || o == rounded => {}
+      Ok(o) => ctx.violation("from_jd_day", key.clone(), format!("JD {} (= {} {:+.1} s): get_solar_day gives day ordinal {:?}; model {} (or {} for the rounded instant)", jd, fmt_inst(civ, point), k as f64 * 0.1, o, contain, rounded), rp.clone()),
+      Err(m) => ctx.violation("from_jd_day", key.clone(), format!("JD {} (= {} {:+.1} s): get_solar_day panics: {}", jd, fmt_inst(civ, point), k as f64 * 0.1, m), rp.clone()),
+    }
     match r {
       Ok(Some(got)) => {
         if (got as f64 - t).abs() > 0.501 {
